@@ -161,6 +161,7 @@ func (h *NtfnsHandler) Stop() {
 }
 
 func handle(h *NtfnsHandler) {
+	defer simYield("handle.exit")
 	defer Recover()
 	defer h.quitWg.Done()
 
@@ -768,6 +769,7 @@ func (h *NtfnsHandler) reorg(dbtx mwdb.DBTransaction, currentBest txmgr.BlockMet
 }
 
 func worker(h *NtfnsHandler) {
+	defer simYield("worker.exit")
 	defer Recover()
 	defer h.quitWg.Done()
 
